@@ -124,7 +124,7 @@ def _hyp_case(draw, variant):
     else:
         p0 = [draw(st.floats(-2, 2, allow_nan=False, width=64)) for _ in range(3)]
         pts = [list(p0) if draw(st.booleans()) else [draw(_coord2()) for _ in range(3)] for _ in range(k)]
-    pts = [[0.0 if abs(x) < 1e-100 else float(x) for x in p] for p in pts]
+    pts = [[0.0 if abs(x) < 1e-30 else float(x) for x in p] for p in pts]
     return {"points": pts}
 
 
